@@ -20,10 +20,12 @@ def generator_contract(gen, node, resolver, defs, tok, sub_trees, explicit_recur
     ghost("sub_trees", sub_trees)
     ghost("explicit_recursion", explicit_recursion)
     ghost("n_expansions", 0)
+    ghost("callee_raised", False)
     try:
         code = gen(node, resolver, defs, tok)
     except Exception:
         return
+    check("errors_of_expanded_statements_propagate", not ghost_get("callee_raised"))
     check("enclosing_scope_current_again", resolver.current_scope is scope0)
     check("scope_cursor_consistent", resolver.last_used_scope == len(resolver.scopes) - 1)
     check("scopes_only_appended", len(resolver.scopes) >= n0)
@@ -34,10 +36,12 @@ def code_gen_contract(ast_nodes, resolver, defs):
     assume(resolver.last_used_scope == len(resolver.scopes) - 1)
     scope0 = resolver.current_scope
     n0 = len(resolver.scopes)
+    ghost("callee_raised", False)
     try:
         code = _code_gen(ast_nodes, resolver, defs)
     except Exception:
         return
+    check("errors_of_expanded_statements_propagate", not ghost_get("callee_raised"))
     check("enclosing_scope_current_again", resolver.current_scope is scope0)
     check("scope_cursor_consistent", resolver.last_used_scope == len(resolver.scopes) - 1)
     check("scopes_only_appended", len(resolver.scopes) >= n0)
@@ -71,11 +75,13 @@ def generate_if_selection_contract(node, resolver, defs, tok, v, defined, then_t
     ghost("n_expansions", 0)
     ghost("last_expansion_tree", None)
     ghost("last_expansion_scope", None)
+    ghost("callee_raised", False)
     from a816.parse.codegen import generate_if
     try:
         generate_if(node, resolver, defs, tok)
     except Exception:
         return
+    check("errors_of_expanded_statements_propagate", not ghost_get("callee_raised"))
     if defined and v != 0:
         check("nonzero_expands_the_first_block_once", ghost_get("n_expansions") == 1 and ghost_get("last_expansion_tree") is then_tree)
     elif else_tree is not None:
